@@ -143,17 +143,23 @@ pub fn run(reg: &[Box<dyn TypeOps>], cfg: &Cfg, out: &mut dyn Write) {
             }
             // a top-level FlexVec whose later slots are shifted by the offset type's alignment only: the first link is still a multiple
             // of `L::ALIGN` but no longer of the vector's alignment, so the next slot — a well-formed item otherwise — is misplaced
-            if let Shape::Flex(_, l) = &sh {
-                if al > l.align && image.len() >= l.size {
-                    let first = decode_len(l, &image[..l.size]) as usize;
-                    let lmax = if l.size >= 8 { usize::MAX } else { (1usize << (8 * l.size)) - 1 };
-                    if first != 0 && first != lmax && first <= image.len() && first + l.align < lmax {
-                        let mut m = l.encode((first + l.align) as u128);
-                        m.extend_from_slice(&image[l.size..first]);
-                        m.extend(std::iter::repeat(0u8).take(l.align));
-                        m.extend_from_slice(&image[first..]);
-                        m.extend(std::iter::repeat(0u8).take(al));
-                        emit(&mut ar, &mut ar2, &m, Place::Mid(0), false, None, out);
+            // (and the other way round, S96: shifted by the *item's* alignment when the offset type is the more aligned one — the link is
+            // then not even a multiple of `L::ALIGN`, and the next slot would be read through a misaligned reference)
+            if let Shape::Flex(e, l) = &sh {
+                let mut steps = vec![l.align];
+                if e.align() != l.align { steps.push(e.align()); }
+                for step in steps {
+                    if al > step && image.len() >= l.size {
+                        let first = decode_len(l, &image[..l.size]) as usize;
+                        let lmax = if l.size >= 8 { usize::MAX } else { (1usize << (8 * l.size)) - 1 };
+                        if first != 0 && first != lmax && first <= image.len() && first + step < lmax {
+                            let mut m = l.encode((first + step) as u128);
+                            m.extend_from_slice(&image[l.size..first]);
+                            m.extend(std::iter::repeat(0u8).take(step));
+                            m.extend_from_slice(&image[first..]);
+                            m.extend(std::iter::repeat(0u8).take(al));
+                            emit(&mut ar, &mut ar2, &m, Place::Mid(0), false, None, out);
+                        }
                     }
                 }
             }
